@@ -1258,6 +1258,33 @@ class SymSession:
                     [vals[c] for c in cols]))
 
 
+def stmt_tables(stmt):
+    """names of the base tables a statement touches"""
+    acc = set()
+
+    def froms(f):
+        if isinstance(f, sa.Table):
+            acc.add(f.name)
+        elif isinstance(f, sel.Subquery):
+            sel_(f.element)
+        elif isinstance(f, sel.Alias):
+            froms(f.element)
+        elif isinstance(f, sel.Join):
+            froms(f.left)
+            froms(f.right)
+
+    def sel_(s):
+        for f in s.get_final_froms():
+            froms(f)
+    if isinstance(stmt, sel.Select):
+        sel_(stmt)
+    elif isinstance(stmt, (dml.Insert, dml.Update, dml.Delete)):
+        acc.add(stmt.table.name)
+        if isinstance(stmt, dml.Insert) and stmt.select is not None:
+            sel_(stmt.select)
+    return acc
+
+
 def make_factory(db, session_cls=SymSession):
     from oslo_db.sqlalchemy import enginefacade
 
